@@ -6,6 +6,7 @@ import itertools
 import numpy as np
 from hypothesis import strategies as st
 
+from ..util import sint
 from ..core import SKIP, Sub
 
 ID = "C06"
@@ -142,9 +143,9 @@ def verify_order(case, order, rec, tag):
                     if not mask[i]:
                         rec.fail(site, f"{k}: row {i} is covered by no context but is not masked (value {data[i]})", row=i, **info)
                         break
-                elif mask[i] or int(data[i]) != col[i]:
-                    rec.fail(site, f"{k}: row {i} should carry flag {col[i]}, got {'masked' if mask[i] else int(data[i])}",
-                             expected=col, got=[None if m else int(d) for d, m in zip(data, mask)], row=i, **info)
+                elif mask[i] or sint(data[i]) != col[i]:
+                    rec.fail(site, f"{k}: row {i} should carry flag {col[i]}, got {'masked' if mask[i] else sint(data[i])}",
+                             expected=col, got=[None if m else sint(d) for d, m in zip(data, mask)], row=i, **info)
                     break
             if c.function is None or c.function.__name__ != k[2]:
                 rec.fail(site, f"{k}: function attribute is {c.function}", **info)
@@ -181,9 +182,9 @@ def verify_order(case, order, rec, tag):
         data, mask = np.ma.getdata(res), np.ma.getmaskarray(res)
         for i in range(n):
             want = 2 if col[i] is None else col[i]
-            if mask[i] or int(data[i]) != want:
-                rec.fail(site, f"{k}: row {i} should be {want} in the dict form, got {'masked' if mask[i] else int(data[i])}",
-                         expected=[2 if c is None else c for c in col], got=[None if m else int(d) for d, m in zip(data, mask)],
+            if mask[i] or sint(data[i]) != want:
+                rec.fail(site, f"{k}: row {i} should be {want} in the dict form, got {'masked' if mask[i] else sint(data[i])}",
+                         expected=[2 if c is None else c for c in col], got=[None if m else sint(d) for d, m in zip(data, mask)],
                          row=i, **info)
                 break
 
@@ -324,14 +325,14 @@ def check_e2e(case, rec):
             k = (c.stream_id, c.package, c.test)
             col = exp[k]
             d, m = np.ma.getdata(c.results), np.ma.getmaskarray(c.results)
-            have = [None if mm else int(v) for v, mm in zip(np.asarray(d).ravel().tolist(), np.asarray(m).ravel().tolist())]
+            have = [None if mm else sint(v) for v, mm in zip(np.asarray(d).ravel().tolist(), np.asarray(m).ravel().tolist())]
             if have != col:
                 rec.fail(site, f"{k}: list form differs from the scatter of the direct calls", expected=col, got=have, frontend=fe)
                 break
             dd = gd = None
             try:
                 gd = got_dict[k[0]][k[1]][k[2]]
-                dd = [int(v) for v in np.asarray(np.ma.getdata(gd)).ravel().tolist()]
+                dd = [sint(v) for v in np.asarray(np.ma.getdata(gd)).ravel().tolist()]
             except Exception:
                 pass
             if dd != [2 if v is None else v for v in col]:
